@@ -26,15 +26,16 @@ func summary(m map[string]any) {
 }
 
 var commands = map[string]func([]string){
-	"parse-enum":   cmdParseEnum,
-	"parse-cases":  cmdParseCases,
-	"parse-texts":  cmdParseTexts,
-	"parse-groups": cmdParseGroups,
-	"lex-enum":     cmdLexEnum,
-	"lex-one":      cmdLexOne,
-	"sql-read":     cmdSQLRead,
-	"quote-enum":   cmdQuoteEnum,
-	"quote-one":    cmdQuoteOne,
+	"parse-enum":     cmdParseEnum,
+	"parse-cases":    cmdParseCases,
+	"parse-texts":    cmdParseTexts,
+	"parse-groups":   cmdParseGroups,
+	"lex-enum":       cmdLexEnum,
+	"lex-one":        cmdLexOne,
+	"sql-read":       cmdSQLRead,
+	"quote-enum":     cmdQuoteEnum,
+	"quote-one":      cmdQuoteOne,
+	"parse-families": cmdParseFamilies,
 }
 
 func main() {
